@@ -465,15 +465,18 @@ theorem step_good {s : MState} (h : Good s) (op : Op) : Good (step s op).1 := by
     · exact h
     · exact finishCycle_good (resume_good h _)
 
-theorem good_init (cfg : Config) (ifs : List Iface) (s : MState) (h : newAgent cfg ifs = .ok s) : Good s := by
+/-- the state a successful constructor returns -/
+theorem newAgent_ok {cfg : Config} {ifs : List Iface} {s : MState} (h : newAgent cfg ifs = .ok s) :
+    s = { cfg := cfg, ifs := ifs, gateClosed := cfg.hold } := by
   unfold newAgent at h
-  split at h
-  · simp at h
-  · split at h
-    · simp at h
-    · simp only [Except.ok.injEq] at h
-      subst h
-      exact ⟨by simp [Cons, ConsK, liveCount], by intro j hj; simp at hj⟩
+  repeat' split at h
+  all_goals first
+    | (simp only [Except.ok.injEq] at h; exact h.symm)
+    | simp at h
+
+theorem good_init (cfg : Config) (ifs : List Iface) (s : MState) (h : newAgent cfg ifs = .ok s) : Good s := by
+  rw [newAgent_ok h]
+  exact ⟨by simp [Cons, ConsK, liveCount], by intro j hj; simp at hj⟩
 
 /-- run a list of operations -/
 def runOps : MState → List Op → MState
